@@ -671,3 +671,64 @@ func retCases(ret *ssa.Return, i int) []retCase {
 	expand(v, ret.Block(), ret, 0)
 	return out
 }
+
+// edgeReturn follows a CFG edge through blocks that only merge or forward (phis, pure values, jumps, run-defers;
+// no calls except those of expanded defers) to the return it leads to, and resolves result #idx (negative: counted
+// from the end) along that path through the phis it crosses. ok is false when the path branches or does work.
+func edgeReturn(e sx.Edge, idx int) (ret *ssa.Return, val ssa.Value, ok bool) {
+	prev := e.From
+	b := e.To()
+	var path []*ssa.BasicBlock
+	var from []*ssa.BasicBlock
+	for steps := 0; steps < 12; steps++ {
+		path = append(path, b)
+		from = append(from, prev)
+		for _, in := range b.Instrs {
+			switch x := in.(type) {
+			case *ssa.Call:
+				if _, isB := x.Call.Value.(*ssa.Builtin); !isB {
+					if info := sx.InlineInfo(b.Parent()); info == nil || !info.FromDefer[in] {
+						return nil, nil, false
+					}
+				}
+			case *ssa.Go, *ssa.Defer, *ssa.Send, *ssa.Select, *ssa.MapUpdate, *ssa.Panic:
+				return nil, nil, false
+			case *ssa.Return:
+				ret = x
+			}
+		}
+		if ret != nil {
+			break
+		}
+		if len(b.Succs) != 1 {
+			return nil, nil, false
+		}
+		prev, b = b, b.Succs[0]
+	}
+	if ret == nil {
+		return nil, nil, false
+	}
+	i := idx
+	if i < 0 {
+		i = len(ret.Results) + idx
+	}
+	if i < 0 || i >= len(ret.Results) {
+		return ret, nil, true
+	}
+	v := returnValue(ret, i)
+	for k := len(path) - 1; k >= 0; k-- {
+		ph, isPhi := v.(*ssa.Phi)
+		if !isPhi {
+			break
+		}
+		if ph.Block() != path[k] {
+			continue
+		}
+		for j, pred := range path[k].Preds {
+			if pred == from[k] {
+				v = ph.Edges[j]
+			}
+		}
+	}
+	return ret, v, true
+}
